@@ -1,0 +1,31 @@
+//go:build verif
+
+package partialmessages
+
+import "github.com/libp2p/go-libp2p/core/peer"
+
+// VerifPeerKeys lists every peer mentioned in per-group peer state or in the
+// peer-initiated group counters (read-only; used by the verification harness).
+func (e *PartialMessagesExtension[PeerState]) VerifPeerKeys() []peer.ID {
+	seen := make(map[peer.ID]struct{})
+	for _, tState := range e.statePerTopicPerGroup {
+		for _, gState := range tState {
+			for p := range gState.peerState {
+				seen[p] = struct{}{}
+			}
+			if gState.initiatedBy != "" {
+				seen[gState.initiatedBy] = struct{}{}
+			}
+		}
+	}
+	for _, ctr := range e.peerInitiatedGroupCounter {
+		for p := range ctr.perPeer {
+			seen[p] = struct{}{}
+		}
+	}
+	out := make([]peer.ID, 0, len(seen))
+	for p := range seen {
+		out = append(out, p)
+	}
+	return out
+}
